@@ -84,7 +84,13 @@ const CLAUSES: &[&str] = &[
     "It is better _then_ nothing at all.",
     "He is more **then** ready for this.",
     "Back in the `day` we would of course go.",
+    // misspellings whose nearest user-dictionary words (TIES) are equally far away
+    "The wrod and the quikk reply were discusd openly.",
 ];
+
+/// User-dictionary words that tie, in edit distance, as corrections of misspellings in CLAUSES:
+/// which of them is suggested, and in what order, must not depend on a hash map's order.
+const TIES: &[&str] = &["wrods", "wrold", "wrode", "wrodd", "wroda", "quikks", "quikka", "quikkb", "quikkc", "discusda", "discusdb"];
 
 fn gen_doc(rng: &mut Rng) -> String {
     let n = rng.range(1, 5);
@@ -231,7 +237,15 @@ pub fn run(job: &Job) -> RunResult {
     let mut slots: Vec<Slot> = vec![];
     for _ in 0..nslots {
         let (d, wd) = *rng.pick(&dialects);
-        let words: Vec<String> = if rng.chance(1, 3) { vec![rng.pick(crate::corpus::WORDS).to_string()] } else { vec![] };
+        let mut words: Vec<String> = if rng.chance(1, 3) { vec![rng.pick(crate::corpus::WORDS).to_string()] } else { vec![] };
+        if rng.chance(1, 3) {
+            for _ in 0..rng.range(2, 6) {
+                let w = rng.pick(TIES).to_string();
+                if !words.contains(&w) {
+                    words.push(w);
+                }
+            }
+        }
         let mut slot = Slot { inner: None, dialect: d, wdialect: wd, words, wasm_cfg: BTreeMap::new(), lints_done: 0, last_markdown: None, last_cfg_hash: 0, seen_docs: HashMap::new() };
         let kind = *rng.pick(&["bare", "docstate", "wasm", "wasm"]);
         let cfg = if kind == "docstate" { LintGroupConfig::default() } else { LintGroup::new_curated(merged_dict(&[]), d).config };
@@ -387,7 +401,7 @@ pub fn run(job: &Job) -> RunResult {
                 // ImportWords (JS-facing linter): rebuilds its rule set
                 let slot = &mut slots[si];
                 if let Inner::Wasm(l) = slot.inner.as_mut().unwrap() {
-                    let w = rng.pick(crate::corpus::WORDS).to_string();
+                    let w = if rng.chance(1, 3) { rng.pick(TIES).to_string() } else { rng.pick(crate::corpus::WORDS).to_string() };
                     let norm = |x: &str| x.to_lowercase().replace(['’', '‘'], "'");
                     if !slot.words.iter().any(|x| *x != w && norm(x) == norm(&w)) {
                         l.import_words(vec![w.clone()]);
